@@ -645,23 +645,47 @@ func (w *c05World) c05SharedCounted(b *c05Block) []string {
 //          view of a device is counted as a replica of its own (a trash still
 //          removes the whole device).
 // standIn  (finding c05-other-server-copy-stands-in-for-class): for class c,
-//          kept copies on mounts that do NOT offer c, on servers that keep no
-//          class-c copy, are counted towards c.
+//          kept copies on mounts that do NOT offer c, on servers where no
+//          class-c mount is in use (kept copy or pull target), are counted
+//          towards c – provided every trashed class-c copy sits on a server
+//          where another class-c mount is in use.
 
-// standInRepl: replication of kept copies outside class c on servers that keep
-// no class-c copy.
-func (w *c05World) standInRepl(b *c05Block, class string, trashed map[string]bool, perView bool) int {
-	keeps := map[int]bool{} // servers with a kept class-c copy
+// classSrvInUse: servers on which the balancer uses a class-c mount after its
+// changes: a kept class-c copy or a class-c pull target. A device seen through
+// several surviving views is "used" through only one of them (which one is
+// the implementation's choice): with multiView=true all its servers are
+// reported (lenient for condition (a)), with multiView=false none (lenient
+// for the stand-in exclusion). Without shared devices both agree.
+func (w *c05World) classSrvInUse(b *c05Block, out *c05Out, class string, trashed map[string]bool, multiView bool) map[int]bool {
+	use := map[int]bool{}
 	for _, dev := range w.devKeys {
 		if _, has := b.Copies[dev]; !has || trashed[dev] || !w.minfo[w.devMounts[dev][0]].classes[class] {
 			continue
 		}
+		var srvs []int
 		for _, gi := range w.devMounts[dev] {
 			if w.survivor[gi] {
-				keeps[w.minfo[gi].srv] = true
+				srvs = append(srvs, w.minfo[gi].srv)
+			}
+		}
+		if len(srvs) == 1 || multiView {
+			for _, si := range srvs {
+				use[si] = true
 			}
 		}
 	}
+	for _, pl := range out.Pulls {
+		if gi, ok := w.byUUID[pl.To]; ok && w.minfo[gi].classes[class] {
+			use[w.minfo[gi].srv] = true
+		}
+	}
+	return use
+}
+
+// standInRepl: replication of kept copies outside class c on servers where
+// no class-c mount is in use.
+func (w *c05World) standInRepl(b *c05Block, out *c05Out, class string, trashed map[string]bool, perView bool) int {
+	use := w.classSrvInUse(b, out, class, trashed, false)
 	n := 0
 	for _, dev := range w.devKeys {
 		if _, has := b.Copies[dev]; !has || trashed[dev] || w.minfo[w.devMounts[dev][0]].classes[class] {
@@ -669,7 +693,7 @@ func (w *c05World) standInRepl(b *c05Block, class string, trashed map[string]boo
 		}
 		counted := false
 		for _, gi := range w.devMounts[dev] {
-			if !w.survivor[gi] || keeps[w.minfo[gi].srv] {
+			if !w.survivor[gi] || use[w.minfo[gi].srv] {
 				continue
 			}
 			if perView || !counted {
@@ -681,20 +705,11 @@ func (w *c05World) standInRepl(b *c05Block, class string, trashed map[string]boo
 	return n
 }
 
-// sameServerClassCopyKept: condition (a) of the stand-in finding – every
-// trashed copy of class c shares a server with a kept copy of class c.
-func (w *c05World) sameServerClassCopyKept(b *c05Block, class string, trashed map[string]bool) bool {
-	keeps := map[int]bool{}
-	for _, dev := range w.devKeys {
-		if _, has := b.Copies[dev]; !has || trashed[dev] || !w.minfo[w.devMounts[dev][0]].classes[class] {
-			continue
-		}
-		for _, gi := range w.devMounts[dev] {
-			if w.survivor[gi] {
-				keeps[w.minfo[gi].srv] = true
-			}
-		}
-	}
+// sameServerClassMountInUse: condition (a) of the stand-in finding – every
+// trashed copy of class c shares a server with a class-c mount that is in use
+// (kept copy or pull target).
+func (w *c05World) sameServerClassMountInUse(b *c05Block, out *c05Out, class string, trashed map[string]bool) bool {
+	use := w.classSrvInUse(b, out, class, trashed, true)
 	any := false
 	for dev := range trashed {
 		ms := w.devMounts[dev]
@@ -704,7 +719,7 @@ func (w *c05World) sameServerClassCopyKept(b *c05Block, class string, trashed ma
 		any = true
 		ok := false
 		for _, gi := range ms {
-			if keeps[w.minfo[gi].srv] {
+			if use[w.minfo[gi].srv] {
 				ok = true
 			}
 		}
@@ -727,10 +742,10 @@ func (w *c05World) relaxedOK(b *c05Block, out *c05Out, f *c05Facts, perView, sta
 		if after >= need {
 			continue
 		}
-		if !standIn || !w.sameServerClassCopyKept(b, c, f.trashedDev) {
+		if !standIn || !w.sameServerClassMountInUse(b, out, c, f.trashedDev) {
 			return false
 		}
-		if after+w.standInRepl(b, c, f.trashedDev, perView) < need {
+		if after+w.standInRepl(b, out, c, f.trashedDev, perView) < need {
 			return false
 		}
 	}
@@ -744,9 +759,9 @@ func (w *c05World) relaxedOK(b *c05Block, out *c05Out, f *c05Facts, perView, sta
 //     through >= 2 surviving mounts and the very same trash list satisfies
 //     (iii) and (iv) when every view is counted as a replica of its own.
 //   - c05-other-server-copy-stands-in-for-class: only (iv) fails; in every
-//     failing class c each trashed class-c copy shares a server with a kept
-//     class-c copy, and kept copies outside c on servers without a kept
-//     class-c copy make up the number.
+//     failing class c each trashed class-c copy shares a server with another
+//     class-c mount that is in use (kept copy or pull target), and kept copies
+//     outside c on servers without a class-c mount in use make up the number.
 //   - both together, when neither alone suffices.
 func (w *c05World) explainReplication(b *c05Block, out *c05Out, viols []c05Viol, f *c05Facts) (keys []string, why string) {
 	onlyIV := true
@@ -763,7 +778,7 @@ func (w *c05World) explainReplication(b *c05Block, out *c05Out, viols []c05Viol,
 		return []string{c05KnownDouble}, fmt.Sprintf("device(s) %v counted once per mount view", shared)
 	}
 	if onlyIV && w.relaxedOK(b, out, f, false, true) {
-		return []string{c05KnownStandIn}, "class copy trashed on a server that keeps another class copy; copies outside the class on other servers counted instead"
+		return []string{c05KnownStandIn}, "class copy trashed on a server where another mount of the class is in use; copies outside the class on other servers counted instead"
 	}
 	if len(shared) > 0 && w.relaxedOK(b, out, f, true, true) {
 		return []string{c05KnownDouble, c05KnownStandIn}, fmt.Sprintf("device(s) %v counted once per mount view, and copies outside the class on other servers counted instead of a same-server class copy", shared)
